@@ -5,7 +5,7 @@ import json, os, shutil, subprocess, sys, tempfile
 from pathlib import Path
 VERIF = Path(__file__).resolve().parent.parent
 for seed in sys.argv[1:]:
-    seed = Path(seed)
+    seed = Path(seed).resolve()
     tmp = Path(tempfile.mkdtemp(prefix="sf-"))
     try:
         shutil.copytree("/repo/abtem", tmp / "abtem", ignore=shutil.ignore_patterns("__pycache__"))
